@@ -336,6 +336,20 @@ def base(n):
     return re.sub(r'\.\d+$', '', n)
 
 
+def check_hash_clear(rep, mod):
+    """a hash bucket that was not (re)initialised is read as a position: the routines that prime the hash tables for a dictionary, and the one that
+    saves / restores them, must cover the WHOLE table of the level they serve."""
+    R = rep.rule('R-HASH-CLEAR', 'isal_deflate_hash, isal_deflate_process_dict, isal_deflate_reset_dict: every constant-length memset / memcpy whose destination is a hash table array covers the whole array '
+                 '(length = declared element count x element size, read from the IR type of the destination): no bucket keeps a position left over from an earlier stream', floor=9, unit='fills')
+    for f, i, n, es, ln in irrules.array_fills(mod):
+        if f.name not in ('isal_deflate_hash', 'isal_deflate_process_dict', 'isal_deflate_reset_dict'):
+            continue
+        R.instance()
+        R.check(ln == n * es, mod.where(f, i), '%s: %s of %d bytes into a hash table of %d bytes (%d buckets): the other buckets keep positions from whatever used the level buffer before, which the match finder '
+                'treats as candidates inside the window' % (f.name, i.callee.split('.')[1] if '.' in i.callee else i.callee, ln, n * es, n), key='R-HASH-CLEAR|%s|%d' % (f.name, i.line or 0),
+                sample='%s: %d buckets fully covered' % (f.name, n))
+
+
 def main(tier):
     rep = Report('C17', tier, level='other')
     rep.undecided = UNDECIDED
@@ -352,6 +366,7 @@ def main(tier):
     check_dict(rep, mod, S)
     check_mask_fresh(rep, mod, S)
     check_dict_tail(rep, mod)
+    check_hash_clear(rep, mod)
     try:
         import c17_asm
         c17_asm.check(rep)
